@@ -691,7 +691,8 @@ class IndividualParameters:
         :class:`.IndividualParameters`
             Individual parameters object load from the file
         """
-        df = pd.read_csv(path, dtype={"ID": IDType}).set_index("ID")
+        # `converters` (unlike `dtype`) prevents identifiers such as "NA" or "null" to be parsed as missing values
+        df = pd.read_csv(path, converters={"ID": str}).set_index("ID")
         ip = cls.from_dataframe(df)
 
         return ip
